@@ -28,7 +28,7 @@ theorem pres_doNewLocked {c : Cfg} (hP : 0 < c.P) {s : State} {m : Mach} {v : PV
     (src : Option Bytes) (ro rnd : Bool) :
     Pres c s (doNewLocked c s m v src ro rnd) := by
   have gl := good_lockV hP g .rw
-  have tl := fun t0 => tight_lockV hP (t t0) g .rw (Or.inl (by simp))
+  have tl := fun t0 => tight_lockV hP (t t0) g .rw (Or.inr (Or.inl (by simp)))
   unfold doNewLocked
   by_cases hr : (lockV c m v .rw).2 = true
   · simp only [hr, if_true]
@@ -173,15 +173,17 @@ theorem inv_stepCore {c : Cfg} (hP : 0 < c.P) {s : State} (h : Inv c s) (t : Tok
   case bad => exact h
 
 theorem tight_stepCore {c : Cfg} (hP : 0 < c.P) {s : State} (h : Inv c s) (ht : Tight c s) (t : Tok)
-    (hno : ¬ LocksNoAccess s t) : Tight c (stepCore c s t).2 := by
+    (hno : c.undo = true ∨ ¬ LocksNoAccess s t) : Tight c (stepCore c s t).2 := by
   unfold stepCore
   cases hop : t.op <;> simp only []
   case new => exact (pres_opNew hP h).2 ht
   case fill b => exact (pres_opFill hP h _ _).2 ht
   case lock =>
     refine (pres_opLock hP h _ ?_).2 ht
-    intro hl; apply hno
-    exact ⟨hop, hl.2⟩
+    rcases hno with hu | hno
+    · exact Or.inl hu
+    · right; intro hl; apply hno
+      exact ⟨hop, hl.2⟩
   case unlock => exact (pres_opUnlock hP h _).2 ht
   case ro => exact (pres_opProtect hP h _ _).2 ht
   case rw => exact (pres_opProtect hP h _ _).2 ht
